@@ -156,8 +156,18 @@ func vfExplore(r *vfRun, cfg *vfExploreCfg) {
 					h := append(append(make([]string, 0, len(n.hist)+1), n.hist...), ev)
 					c := vfCase{Scenario: cfg.Scenario, Name: cfg.Name, Events: h}
 					r.mark(c)
+					nvBefore := r.totalViolations()
 					canon, obs, en, p := vfRunHistory(r, cfg, h, false, leaf)
 					r.unmark()
+					if p != "" && strings.Contains(p, "blocked goroutines remain") && r.totalViolations() > nvBefore {
+						// the execution already reported why something is stuck; the bubble's own
+						// deadlock report would only repeat it under a generic fingerprint
+						p = ""
+						r.count("executions_ending_with_stuck_goroutines", 1)
+						r.res.Executions++
+						r.res.Transitions++
+						continue
+					}
 					r.res.Executions++
 					r.res.Transitions++
 					if !leaf && len(vfLastDevs) > 0 {
@@ -220,8 +230,12 @@ func vfReplayCase(r *vfRun, cfg *vfExploreCfg, raw json.RawMessage) {
 		r.harnessError("bad case: %v", err)
 		return
 	}
+	nvBefore := r.totalViolations()
 	_, obs, _, p := vfRunHistory(r, cfg, c.Events, true, false)
 	r.res.Executions++
+	if p != "" && strings.Contains(p, "blocked goroutines remain") && r.totalViolations() > nvBefore {
+		p = ""
+	}
 	if p != "" {
 		r.violation("panic:"+vfPanicFingerprint(p), "panic: "+vfFirstLine(p), vfCase{Scenario: cfg.Scenario, Name: cfg.Name, Events: c.Events})
 	}
